@@ -716,6 +716,36 @@ static int do_decode(bool fresh, bool stop_at_notice)
 	return (int)r;
 }
 
+// buffers of the single-call API tests: sentinels before the non-zero start offsets
+#define OFF_OUT 100
+#define OFF_IN 37
+
+static uint8_t *bo_out(size_t cap)
+{
+	uint8_t *p = malloc(cap + 1);
+	if (!p) abort();
+	memset(p, 0xC3, OFF_OUT);
+	return p;
+}
+
+static uint8_t *bo_in(const uint8_t *d, size_t n)
+{
+	uint8_t *p = malloc(OFF_IN + n + 1);
+	if (!p) abort();
+	memset(p, 0x5D, OFF_IN);
+	if (n) memcpy(p + OFF_IN, d, n);
+	return p;
+}
+
+static void bo_check(const uint8_t *out, const uint8_t *in)
+{
+	for (size_t i = 0; i < OFF_OUT; ++i)
+		if (out[i] != 0xC3) { add_err("out-bytes-before-out_pos-modified"); break; }
+	if (in != NULL)
+		for (size_t i = 0; i < OFF_IN; ++i)
+			if (in[i] != 0x5D) { add_err("in-bytes-before-in_pos-modified"); break; }
+}
+
 // ------------------------------------------------------------------------------------------------------------
 // one step
 // ------------------------------------------------------------------------------------------------------------
@@ -1046,17 +1076,42 @@ static int do_step(char *tok)
 		recipe_t *rc = get_recipe(a[2]);
 		if (s < 0 || s >= NIX || !rc) return RET_BADOP;
 		if (ix[s] != NULL) return RET_SKIP;
-		uint64_t memlimit = UINT64_MAX, lfp = ta_live_fp();
-		size_t pos = 0;
-		lzma_ret r = lzma_index_buffer_decode(&ix[s], &memlimit, &TA_ALLOC, rc->data.p, &pos, rc->data.n);
-		if (r != LZMA_OK) {
-			if (ix[s] != NULL) { add_err("index-pointer-set-on-error"); ix[s] = NULL; }
-			if (pos != 0) add_err("in_pos-changed-on-error");
-			if (ta_live_fp() != lfp) add_err("failed-bufdec-changed-live-set");
-		} else if (lzma_index_block_count(ix[s]) != rc->nrec) {
-			add_err("index-decoder-result");
+		uint8_t *in = bo_in(rc->data.p, rc->data.n);
+		lzma_ret first = LZMA_OK;
+		for (int pass = 0; pass < 2; ++pass) {
+			uint64_t memlimit = UINT64_MAX, lfp = ta_live_fp();
+			size_t pos = OFF_IN;
+			lzma_index *tmp = NULL;
+			lzma_ret r = lzma_index_buffer_decode(pass ? &tmp : &ix[s], &memlimit, pass ? NULL : &TA_ALLOC, in, &pos, OFF_IN + rc->data.n);
+			for (size_t i = 0; i < OFF_IN; ++i) if (in[i] != 0x5D) { add_err("in-bytes-before-in_pos-modified"); break; }
+			if (pass == 0) {
+				first = r;
+				if (r != LZMA_OK) {
+					if (ix[s] != NULL) { add_err("index-pointer-set-on-error"); ix[s] = NULL; }
+					if (pos != OFF_IN) add_err("in_pos-changed-on-error");
+					if (ta_live_fp() != lfp) add_err("failed-bufdec-changed-live-set");
+				} else if (lzma_index_block_count(ix[s]) != rc->nrec || pos != OFF_IN + rc->data.n) {
+					add_err("index-decoder-result");
+				} else {
+					// lzma_index_buffer_encode at a non-zero offset gives the same bytes back
+					size_t cap = OFF_OUT + rc->data.n + 8, op2 = OFF_OUT;
+					uint8_t *o = bo_out(cap);
+					if (lzma_index_buffer_encode(ix[s], o, &op2, cap) != LZMA_OK || op2 - OFF_OUT != rc->data.n
+							|| memcmp(o + OFF_OUT, rc->data.p, rc->data.n)) add_err("index-buffer-encode-result");
+					bo_check(o, NULL);
+					op2 = OFF_OUT;
+					if (lzma_index_buffer_encode(ix[s], o, &op2, OFF_OUT + rc->data.n - 1) != LZMA_BUF_ERROR || op2 != OFF_OUT)
+						add_err("index-buffer-encode-position-on-error");
+					free(o);
+				}
+			} else {
+				if (r != LZMA_OK || tmp == NULL || lzma_index_block_count(tmp) != rc->nrec) add_err("retry-after-mem-error-failed");
+				lzma_index_end(tmp, NULL);
+			}
+			if (first != LZMA_MEM_ERROR) break;
 		}
-		return (int)r;
+		free(in);
+		return (int)first;
 	}
 
 	// ---- filters ----
@@ -1184,102 +1239,191 @@ static int do_step(char *tok)
 	}
 
 	// ---- single-call buffer API with an allocator ----
+	// All single-call functions are called DIRECTLY with *out_pos = OFF_OUT and *in_pos = OFF_IN (non-zero), the bytes before
+	// the offsets filled with sentinels. On any error the positions must be what they were, the sentinels and the caller's
+	// lzma_block / lzma_filter structs untouched, the allocator balanced; and after LZMA_MEM_ERROR an immediate retry
+	// without failures (default allocator, same arguments) must succeed and put a valid result at the requested offset.
 	if (!strcmp(op, "sbufdec") && n == 3) {
 		recipe_t *rc = get_recipe(a[2]);
 		if (!rc) return RET_BADOP;
-		uint64_t memlimit = UINT64_MAX, lfp = ta_live_fp();
-		size_t ip = 0, op_ = 0, cap = rc->plain.n + 16;
-		uint8_t *o = malloc(cap);
-		lzma_ret r = lzma_stream_buffer_decode(&memlimit, (uint32_t)strtoul(a[1], NULL, 10), &TA_ALLOC,
-				rc->data.p, &ip, rc->data.n, o, &op_, cap);
-		if (r == LZMA_OK && (op_ != rc->plain.n || memcmp(o, rc->plain.p, op_))) add_err("decode-mismatch");
-		if (r != LZMA_OK && (ip != 0 || op_ != 0)) add_err("positions-changed-on-error");
-		if (ta_live_fp() != lfp) add_err("buffer-call-changed-live-set");
-		free(o);
-		return (int)r;
+		size_t cap = OFF_OUT + rc->plain.n + 16;
+		uint8_t *o = bo_out(cap), *in = bo_in(rc->data.p, rc->data.n);
+		lzma_ret first = LZMA_OK;
+		for (int pass = 0; pass < 2; ++pass) {
+			uint64_t memlimit = UINT64_MAX, lfp = ta_live_fp();
+			size_t ip = OFF_IN, op_ = OFF_OUT;
+			lzma_ret r = lzma_stream_buffer_decode(&memlimit, (uint32_t)strtoul(a[1], NULL, 10), pass ? NULL : &TA_ALLOC,
+					in, &ip, OFF_IN + rc->data.n, o, &op_, cap);
+			if (r == LZMA_OK && (op_ - OFF_OUT != rc->plain.n || memcmp(o + OFF_OUT, rc->plain.p, rc->plain.n))) add_err("decode-mismatch");
+			if (r != LZMA_OK && (ip != OFF_IN || op_ != OFF_OUT)) add_err("positions-changed-on-error");
+			bo_check(o, in);
+			if (ta_live_fp() != lfp) add_err("buffer-call-changed-live-set");
+			if (pass == 0) first = r;
+			if (pass == 1 && r == LZMA_MEM_ERROR) add_err("retry-after-mem-error-failed");  // (a recipe may legitimately end in another code)
+			if (first != LZMA_MEM_ERROR) break;
+		}
+		free(o); free(in);
+		return (int)first;
 	}
 	if ((!strcmp(op, "sbufenc") && n == 4) || (!strcmp(op, "ebufenc") && n == 5)) {
 		// sbufenc:<chain>:<check>:<len>      ebufenc:<preset>:<check>:<len>:<equivalent lzma2 filter>
 		bool easy = op[0] == 'e';
 		if (!parse_chain(easy ? a[4] : a[1], &c)) return RET_BADOP;
-		size_t len = strtoul(a[3], NULL, 10), cap = lzma_stream_buffer_bound(len) + 64, pos = 0;
-		uint8_t *d = malloc(len + 1), *o = malloc(cap);
+		size_t len = strtoul(a[3], NULL, 10), cap = OFF_OUT + lzma_stream_buffer_bound(len) + 64;
+		uint8_t *d = malloc(len + 1), *o = bo_out(cap);
 		gen_data(d, len, 21);
-		uint64_t fp = chain_fp(&c), lfp = ta_live_fp();
-		lzma_ret r = easy
-			? lzma_easy_buffer_encode((uint32_t)strtoul(a[1], NULL, 10), parse_check(a[2]), &TA_ALLOC, d, len, o, &pos, cap)
-			: lzma_stream_buffer_encode(c.f, parse_check(a[2]), &TA_ALLOC, d, len, o, &pos, cap);
-		if (chain_fp(&c) != fp) add_err("caller-filters-modified");
-		if (ta_live_fp() != lfp) add_err("buffer-call-changed-live-set");
-		if (r == LZMA_OK) {
-			uint64_t ml = UINT64_MAX; size_t ip = 0, op2 = 0;
-			uint8_t *back = malloc(len + 16);
-			if (lzma_stream_buffer_decode(&ml, 0, NULL, o, &ip, pos, back, &op2, len + 16) != LZMA_OK
-					|| op2 != len || memcmp(back, d, len)) add_err("roundtrip-mismatch");
-			free(back);
-		} else if (pos != 0) add_err("positions-changed-on-error");
+		lzma_ret first = LZMA_OK;
+		for (int pass = 0; pass < 2; ++pass) {
+			size_t pos = OFF_OUT;
+			uint64_t fp = chain_fp(&c), lfp = ta_live_fp();
+			const lzma_allocator *al = pass ? NULL : &TA_ALLOC;
+			lzma_ret r = easy
+				? lzma_easy_buffer_encode((uint32_t)strtoul(a[1], NULL, 10), parse_check(a[2]), al, d, len, o, &pos, cap)
+				: lzma_stream_buffer_encode(c.f, parse_check(a[2]), al, d, len, o, &pos, cap);
+			if (chain_fp(&c) != fp) add_err("caller-filters-modified");
+			if (ta_live_fp() != lfp) add_err("buffer-call-changed-live-set");
+			bo_check(o, NULL);
+			if (r == LZMA_OK) {
+				uint64_t ml = UINT64_MAX; size_t ip = OFF_OUT, op2 = 0;
+				uint8_t *back = malloc(len + 16);
+				if (lzma_stream_buffer_decode(&ml, 0, NULL, o, &ip, pos, back, &op2, len + 16) != LZMA_OK
+						|| op2 != len || memcmp(back, d, len)) add_err("roundtrip-mismatch");
+				free(back);
+			} else if (pos != OFF_OUT) add_err("positions-changed-on-error");
+			if (pass == 0) first = r;
+			if (pass == 1 && r == LZMA_MEM_ERROR) add_err("retry-after-mem-error-failed");  // (a recipe may legitimately end in another code)
+			if (first != LZMA_MEM_ERROR) break;
+		}
 		free(d); free(o);
-		return (int)r;
+		return (int)first;
 	}
 	if ((!strcmp(op, "rbufenc") || !strcmp(op, "rbufdec")) && n == 3) {
 		if (!parse_chain(a[1], &c)) return RET_BADOP;
-		size_t len = strtoul(a[2], NULL, 10), cap = len * 2 + 4096, pos = 0;
-		uint8_t *d = malloc(len + 1), *o = malloc(cap);
+		size_t len = strtoul(a[2], NULL, 10), cap = OFF_OUT + len * 2 + 4096;
+		uint8_t *d = malloc(len + 1), *o = bo_out(cap);
 		gen_data(d, len, 23);
-		uint64_t fp = chain_fp(&c);
-		lzma_ret r;
+		lzma_ret first = LZMA_OK;
 		if (op[4] == 'e') {
-			uint64_t lfp = ta_live_fp();
-			r = lzma_raw_buffer_encode(c.f, &TA_ALLOC, d, len, o, &pos, cap);
-			if (ta_live_fp() != lfp) add_err("buffer-call-changed-live-set");
+			for (int pass = 0; pass < 2; ++pass) {
+				size_t pos = OFF_OUT;
+				uint64_t fp = chain_fp(&c), lfp = ta_live_fp();
+				lzma_ret r = lzma_raw_buffer_encode(c.f, pass ? NULL : &TA_ALLOC, d, len, o, &pos, cap);
+				if (chain_fp(&c) != fp) add_err("caller-filters-modified");
+				if (ta_live_fp() != lfp) add_err("buffer-call-changed-live-set");
+				bo_check(o, NULL);
+				if (r == LZMA_OK) {
+					uint8_t *back = malloc(len + 16);
+					size_t ip = OFF_OUT, op2 = 0;
+					if (lzma_raw_buffer_decode(c.f, NULL, o, &ip, pos, back, &op2, len + 16) != LZMA_OK || op2 != len || memcmp(back, d, len))
+						add_err("roundtrip-mismatch");
+					free(back);
+				} else if (pos != OFF_OUT) add_err("positions-changed-on-error");
+				if (pass == 0) first = r;
+				if (pass == 1 && r == LZMA_MEM_ERROR) add_err("retry-after-mem-error-failed");  // (a recipe may legitimately end in another code)
+				if (first != LZMA_MEM_ERROR) break;
+			}
 		} else {
-			if (lzma_raw_buffer_encode(c.f, NULL, d, len, o, &pos, cap) != LZMA_OK) { free(d); free(o); return RET_BADOP; }
-			uint8_t *back = malloc(len + 16);
-			size_t ip = 0, op2 = 0;
-			uint64_t lfp = ta_live_fp();
-			r = lzma_raw_buffer_decode(c.f, &TA_ALLOC, o, &ip, pos, back, &op2, len + 16);
-			if (ta_live_fp() != lfp) add_err("buffer-call-changed-live-set");
-			if (r == LZMA_OK && (op2 != len || memcmp(back, d, len))) add_err("decode-mismatch");
-			free(back);
+			size_t pos = 0;
+			if (lzma_raw_buffer_encode(c.f, NULL, d, len, o + OFF_OUT, &pos, cap - OFF_OUT) != LZMA_OK) { free(d); free(o); return RET_BADOP; }
+			uint8_t *in = bo_in(o + OFF_OUT, pos), *back = bo_out(OFF_OUT + len + 16);
+			for (int pass = 0; pass < 2; ++pass) {
+				size_t ip = OFF_IN, op2 = OFF_OUT;
+				uint64_t fp = chain_fp(&c), lfp = ta_live_fp();
+				lzma_ret r = lzma_raw_buffer_decode(c.f, pass ? NULL : &TA_ALLOC, in, &ip, OFF_IN + pos, back, &op2, OFF_OUT + len + 16);
+				if (chain_fp(&c) != fp) add_err("caller-filters-modified");
+				if (ta_live_fp() != lfp) add_err("buffer-call-changed-live-set");
+				bo_check(back, in);
+				if (r == LZMA_OK && (op2 - OFF_OUT != len || memcmp(back + OFF_OUT, d, len))) add_err("decode-mismatch");
+				if (r != LZMA_OK && (ip != OFF_IN || op2 != OFF_OUT)) add_err("positions-changed-on-error");
+				if (pass == 0) first = r;
+				if (pass == 1 && r == LZMA_MEM_ERROR) add_err("retry-after-mem-error-failed");  // (a recipe may legitimately end in another code)
+				if (first != LZMA_MEM_ERROR) break;
+			}
+			free(in); free(back);
 		}
-		if (chain_fp(&c) != fp) add_err("caller-filters-modified");
 		free(d); free(o);
-		return (int)r;
+		return (int)first;
 	}
 	if ((!strcmp(op, "bbufenc") || !strcmp(op, "bbufdec")) && n == 4) {
 		if (!parse_chain(a[1], &c)) return RET_BADOP;
-		size_t len = strtoul(a[3], NULL, 10), cap = lzma_block_buffer_bound(len) + 64, pos = 0;
-		uint8_t *d = malloc(len + 1), *o = malloc(cap);
+		size_t len = strtoul(a[3], NULL, 10), cap = OFF_OUT + lzma_block_buffer_bound(len) + 64;
+		uint8_t *d = malloc(len + 1), *o = bo_out(cap);
 		gen_data(d, len, 25);
 		lzma_block b;
 		memset(&b, 0, sizeof b);
 		b.version = 0; b.check = parse_check(a[2]); b.filters = c.f;
-		uint64_t fp = chain_fp(&c);
-		lzma_ret r;
+		lzma_ret first = LZMA_OK;
 		if (op[4] == 'e') {
-			uint64_t lfp = ta_live_fp();
-			r = lzma_block_buffer_encode(&b, &TA_ALLOC, d, len, o, &pos, cap);
-			if (ta_live_fp() != lfp) add_err("buffer-call-changed-live-set");
+			for (int pass = 0; pass < 2; ++pass) {
+				size_t pos = OFF_OUT;
+				lzma_block bb = b;
+				uint64_t fp = chain_fp(&c), lfp = ta_live_fp();
+				lzma_ret r = lzma_block_buffer_encode(&bb, pass ? NULL : &TA_ALLOC, d, len, o, &pos, cap);
+				if (chain_fp(&c) != fp) add_err("caller-filters-modified");
+				// documented outputs of the call: header_size, compressed_size, uncompressed_size, raw_check
+				if (bb.version != b.version || bb.check != b.check || bb.filters != b.filters) add_err("caller-block-modified");
+				if (ta_live_fp() != lfp) add_err("buffer-call-changed-live-set");
+				bo_check(o, NULL);
+				if (r == LZMA_OK) {
+					lzma_filter df[LZMA_FILTERS_MAX + 1];
+					lzma_block db;
+					memset(&db, 0, sizeof db);
+					db.version = 1; db.check = b.check; db.filters = df;
+					db.header_size = lzma_block_header_size_decode(o[OFF_OUT]);
+					uint8_t *back = malloc(len + 16);
+					size_t ip = OFF_OUT + db.header_size, op2 = 0;
+					if (lzma_block_header_decode(&db, NULL, o + OFF_OUT) != LZMA_OK
+							|| lzma_block_buffer_decode(&db, NULL, o, &ip, pos, back, &op2, len + 16) != LZMA_OK
+							|| op2 != len || memcmp(back, d, len)) add_err("roundtrip-mismatch");
+					lzma_filters_free(df, NULL);
+					free(back);
+				} else if (pos != OFF_OUT) add_err("positions-changed-on-error");
+				if (pass == 0) first = r;
+				if (pass == 1 && r == LZMA_MEM_ERROR) add_err("retry-after-mem-error-failed");  // (a recipe may legitimately end in another code)
+				if (first != LZMA_MEM_ERROR) break;
+			}
+			// lzma_block_uncomp_encode takes no allocator; same contract for the offset
+			{
+				size_t pos = OFF_OUT;
+				lzma_block bb = b;
+				bb.filters = NULL;
+				uint8_t *u = bo_out(cap);
+				lzma_ret r = lzma_block_uncomp_encode(&bb, d, len, u, &pos, cap);
+				bo_check(u, NULL);
+				if (r != LZMA_OK ? pos != OFF_OUT : pos <= OFF_OUT) add_err("uncomp-encode-position");
+				free(u);
+			}
 		} else {
-			if (lzma_block_buffer_encode(&b, NULL, d, len, o, &pos, cap) != LZMA_OK) { free(d); free(o); return RET_BADOP; }
+			size_t pos = 0;
+			if (lzma_block_buffer_encode(&b, NULL, d, len, o + OFF_OUT, &pos, cap - OFF_OUT) != LZMA_OK) { free(d); free(o); return RET_BADOP; }
 			lzma_filter df[LZMA_FILTERS_MAX + 1];
 			lzma_block db;
 			memset(&db, 0, sizeof db);
 			db.version = 1; db.check = b.check; db.filters = df;
-			db.header_size = lzma_block_header_size_decode(o[0]);
-			if (lzma_block_header_decode(&db, NULL, o) != LZMA_OK) { free(d); free(o); return RET_BADOP; }
-			uint8_t *back = malloc(len + 16);
-			size_t ip = db.header_size, op2 = 0;
-			uint64_t lfp = ta_live_fp();
-			r = lzma_block_buffer_decode(&db, &TA_ALLOC, o, &ip, pos, back, &op2, len + 16);
-			if (ta_live_fp() != lfp) add_err("buffer-call-changed-live-set");
-			if (r == LZMA_OK && (op2 != len || memcmp(back, d, len))) add_err("decode-mismatch");
-			free(back);
+			db.header_size = lzma_block_header_size_decode(o[OFF_OUT]);
+			if (lzma_block_header_decode(&db, NULL, o + OFF_OUT) != LZMA_OK) { free(d); free(o); return RET_BADOP; }
+			uint8_t *in = bo_in(o + OFF_OUT, pos), *back = bo_out(OFF_OUT + len + 16);
+			for (int pass = 0; pass < 2; ++pass) {
+				lzma_block dd = db;
+				size_t ip = OFF_IN + db.header_size, op2 = OFF_OUT;
+				uint64_t lfp = ta_live_fp();
+				lzma_ret r = lzma_block_buffer_decode(&dd, pass ? NULL : &TA_ALLOC, in, &ip, OFF_IN + pos, back, &op2, OFF_OUT + len + 16);
+				if (ta_live_fp() != lfp) add_err("buffer-call-changed-live-set");
+				if (dd.version != db.version || dd.check != db.check || dd.filters != db.filters || dd.header_size != db.header_size
+						|| dd.compressed_size != db.compressed_size || dd.uncompressed_size != db.uncompressed_size)
+					add_err("caller-block-modified");
+				bo_check(back, in);
+				if (r == LZMA_OK && (op2 - OFF_OUT != len || memcmp(back + OFF_OUT, d, len))) add_err("decode-mismatch");
+				if (r != LZMA_OK && (ip != OFF_IN + db.header_size || op2 != OFF_OUT)) add_err("positions-changed-on-error");
+				if (pass == 0) first = r;
+				if (pass == 1 && r == LZMA_MEM_ERROR) add_err("retry-after-mem-error-failed");  // (a recipe may legitimately end in another code)
+				if (first != LZMA_MEM_ERROR) break;
+			}
+			free(in); free(back);
 			lzma_filters_free(df, NULL);
 		}
-		if (chain_fp(&c) != fp) add_err("caller-filters-modified");
 		free(d); free(o);
-		return (int)r;
+		return (int)first;
 	}
 	return RET_BADOP;
 }
